@@ -70,7 +70,7 @@ def run(ctx):
             fn = mem.node
             par = [a.arg for a in fn.args.args][1]
             src = ast.unparse(fn)
-            delegates = 'super().visit_Node(' in src or f'super().visit_{N}(' in src or f'self.visit({par}.children' in src
+            delegates = X.has(src, 'super().visit_Node(') or X.has(src, f'super().visit_{N}(') or X.has(src, f'self.visit({par}.children')
             fields = m.dataclass_fields(cls)
             trav = D.traversable(m, cls)
             exprf = [f for f in trav if f in fields and D.annotation_mentions(fields[f][0], {'Expression'})]
@@ -123,7 +123,7 @@ def run(ctx):
      ctx.violation('R3', 'ResolveAssociatesTransformer.visit_Associate', va.where, f'visit_Associate returns {rets}'))
     dra = m.get_function(FILE, 'do_resolve_associates')
     src = ast.unparse(dra.node)
-    ok = 'routine.body = transformer.visit(routine.body)' in src and 'routine.rescope_symbols()' in src
+    ok = X.has(src, 'routine.body = transformer.visit(routine.body)') and X.has(src, 'routine.rescope_symbols()')
     (ctx.judge('R3', 'do_resolve_associates wiring') if ok else
      ctx.violation('R3', 'do_resolve_associates', dra.where, 'body not replaced by the transformed body / symbols not rescoped'))
     _r4_r5(ctx)
